@@ -31,6 +31,7 @@ index file's timestamps); the racily-clean window is out of reach on purpose.
 
 from __future__ import annotations
 
+import errno
 import hashlib
 import io
 import os
@@ -173,12 +174,28 @@ def _entry(kind_sel, c_sel, t_sel):
     return (kind, CONTENTS[c_sel % len(CONTENTS)])
 
 
+def loops(path: bytes, target: bytes) -> bool:
+    """Does a link at ``path`` with ``target`` lead (lexically) back to or through itself?  Symlink loops are covered by
+    pinned inputs only."""
+    if target.startswith(b"/"):
+        return False
+    norm = os.path.normpath(os.path.join(os.path.dirname(path), target))
+    return norm == path or norm.startswith(path + b"/")
+
+
+def _no_self_loop(path, entry):
+    kind, spec = entry
+    if kind == "l" and loops(path, content(spec)):
+        return (kind, ("raw", b"elsewhere"))
+    return entry
+
+
 def _build_tree(universe, picks):
     tree = {}
     for u, k, c, t in picks:
         p = universe[u % len(universe)]
         if fits(tree, p):
-            tree[p] = _entry(k, c, t)
+            tree[p] = _no_self_loop(p, _entry(k, c, t))
     if not tree:
         tree[universe[0]] = ("f", CONTENTS[3])
     return tree
@@ -234,7 +251,7 @@ def _derive_tree(base, universe, names, edits):
             p = universe[s1 % len(universe)]
             if fits(tree, p):
                 tree[p] = _entry(s2, s3, s1)
-    return tree
+    return {p: _no_self_loop(p, e) for p, e in tree.items()}
 
 
 def _scenarios(maxops):
@@ -396,6 +413,17 @@ class Runner:
     def full(self, p: bytes) -> bytes:
         return os.path.join(self.bd, p)
 
+    def stop_on_symlink_loop(self):
+        """Symlink loops (a -> a, a -> b -> a, d/l -> ../d/l/x) are declared out of the domain: end the scenario."""
+        for p, v in self.W.items():
+            if v[0] == LNK:
+                try:
+                    os.stat(self.full(p))
+                except OSError as e:
+                    if e.errno == errno.ELOOP:
+                        self.labels.add("stopped:symlink-loop")
+                        raise _Stop()
+
     def tick(self):
         """Tick barrier: the file-system clock must be past every timestamp of the index file."""
         ip = os.path.join(self.d, ".git", "index")
@@ -480,6 +508,7 @@ class Runner:
             raise _Stop()
         self.branch = 0
         self.sync()
+        self.stop_on_symlink_loop()
         head = self._head()
         if head != b"refs/heads/br0":
             self.fail("C18:init:head-not-on-branch", f"after {init} HEAD is {head!r}")
@@ -523,6 +552,9 @@ class Runner:
             diff = [p for p in sorted(set(self.I) | set(T)) if self.I.get(p) != T.get(p)]
             self.fail(f"C18:{site}:index-differs", f"{where}: index differs from the tree at {diff[:6]!r}")
             raise _Stop()
+        if extra:
+            self.labels.add("round-trip-with-untracked")
+            return
         # status clean is asserted by the observation that follows; here: stage everything -> same tree id
         try:
             porcelain.add(self.repo)
@@ -542,10 +574,6 @@ class Runner:
         if gid != want_id:
             self.fail(f"C18:{site}:git-write-tree-differs", f"{where}: git write-tree gives {gid!r} on dulwich's index, expected {want_id!r}")
             raise _Stop()
-        if extra:
-            # put the index back the way it was (the untracked files were staged by the add above)
-            cgit.git(["read-tree", "HEAD"], cwd=self.d)
-            cgit.git(["update-index", "-q", "--refresh"], cwd=self.d, check=False)
         self.sync(head=False, wd=False)
         self.labels.add("round-trip")
 
@@ -592,7 +620,7 @@ class Runner:
     def _tracked_kind(self, p: bytes) -> str:
         if p in self.I:
             return "tracked"
-        if M.has_prefix(sorted(self.I), p + b"/"):
+        if p in self.dirs and M.has_prefix(sorted(self.I), p + b"/"):
             return "has-tracked-below"
         return "untracked"
 
@@ -704,6 +732,7 @@ class Runner:
         else:
             raise HarnessError(f"unknown edit {op!r}")
         self.sync(head=False, index=False)
+        self.stop_on_symlink_loop()
 
     # -- index operations (differential against git on a copy of the index) ---------------
     def _git_on_copy(self, args):
@@ -737,7 +766,7 @@ class Runner:
             return
         bad = M.df_conflicts(self.I)
         if bad:
-            self.fail(f"C18:{opname}:index-has-file-and-directory-at-one-path",
+            self.fail(f"C18:{'stage' if opname == 'add-scan' else opname}:index-has-file-and-directory-at-one-path",
                       f"after {self.ops[-1]!r} the index holds {sorted(bad)[:3]!r} both as an entry and as a directory "
                       f"(git write-tree refuses such an index; git's own result: {sorted(want)[:8]!r})")
             raise _Stop()
@@ -754,16 +783,24 @@ class Runner:
                 rel = "df-related"
             else:
                 rel = "other"
+            if rel == "df-related" and opname == "unstage":
+                # `git reset -- d` also restores what HEAD has below d/; WorkTree.unstage is documented per file
+                self.labels.add("unstage-differs-from-git-below-named-path")
+                continue
+            wk = self._wkind(p)
+            wkc = ":dir=" + {"exec": "file", "link-dangling": "symlink", "link-to-file": "symlink", "link-to-other": "symlink",
+                             "link-to-dir": "symlink-to-dir"}.get(wk, wk)
             if a is None:
                 what = "entry-missing"
             elif w is None:
                 what = "entry-left" if p in self._pre_I else "entry-added"
+            elif a[1] == w[1]:
+                what, wkc = "mode-not-updated", ""  # same blob, stale mode (x bit or file<->symlink)
             elif a[0] != w[0]:
                 what = f"mode-{MODE_KIND.get(w[0], '?')}-as-{MODE_KIND.get(a[0], '?')}"
             else:
                 what = "wrong-blob"
-            wk = self._wkind(p)
-            self.fail(f"C18:{opname}:{rel}:{what}:dir={wk}",
+            self.fail(f"C18:{opname}:{rel}:{what}{wkc}",
                       f"after {self.ops[-1]!r}: index entry {p!r} is {a}, git's equivalent leaves {w}; before: {self._pre_I.get(p)}, "
                       f"directory: {self.W.get(p, wk)}")
         # continue from the actual index
@@ -814,9 +851,15 @@ class Runner:
             self.crashed(f"{name}", e)
             return
         self.sync(head=False, wd=False)
+        family = name
         if name == "add" and any(p in self.dirs for p in named):
             named = list(set(self.I) | set(self.W))  # a directory argument names everything below it
-        self._compare_index(name, named, self._git_on_copy(gitargs))
+            family = "add-scan"
+        elif name == "add_all":
+            family = "add-scan"  # both find their paths by scanning (get_unstaged_changes + get_untracked_paths)
+        elif name == "add":
+            family = "stage"  # porcelain.add(file paths) hands the paths to WorkTree.stage
+        self._compare_index(family, named, self._git_on_copy(gitargs))
 
     def do_commit(self):
         from dulwich import porcelain
@@ -842,11 +885,17 @@ class Runner:
         from dulwich import porcelain
 
         pre_I, pre_W = dict(self.I), {p: v[:2] for p, v in self.W.items()}
+        # untracked content at a place where HEAD needs a directory (or the reverse): git deletes it, dulwich may refuse
+        in_the_way = [p for p in self.W if p not in self.I and p not in self.H and not fits(self.H, p)]
+        in_the_way += [d for d in self.dirs if d in self.H and not M.has_prefix(sorted(self.I), d + b"/")]
         try:
             porcelain.reset(self.repo, "hard", "HEAD")
         except Exception as e:
-            self.crashed("porcelain.reset(hard)", e)
             self.sync()
+            if in_the_way and not isinstance(e, BUG_TYPES):
+                self.labels.add(f"reset-hard-refused-untracked-in-the-way:{type(e).__name__}")
+                return
+            self.crashed("porcelain.reset(hard)", e)
             return
         self.sync()
         if self.I != self.H:
@@ -911,6 +960,7 @@ class Runner:
             return
         self.branch = k
         self.sync()
+        self.stop_on_symlink_loop()
         head = self._head()
         if head != b"refs/heads/br%d" % k:
             self.fail("C18:checkout:head-not-on-branch", f"after porcelain.checkout(br{k}) HEAD is {head!r}")
@@ -942,8 +992,44 @@ class Runner:
                 return
 
     # -- dispatch -------------------------------------------------------------------------
+    def in_domain(self, op) -> bool:
+        """Is the concrete operation meaningful in the current state?  (Generated operations always are; a minimised or
+        replayed sequence may not be.)"""
+        name = op[0]
+        W, I, H, dirs = self.W, self.I, self.H, self.dirs
+
+        def parent_ok(p):
+            parts = p.split(b"/")
+            return not any(b"/".join(parts[:i]) in W for i in range(1, len(parts)))
+
+        if name == "write":
+            return parent_ok(op[1])
+        if name in ("rewrite", "chmod"):
+            return op[1] in W and W[op[1]][0] != LNK
+        if name == "delete":
+            return op[1] in W or op[1] in dirs
+        if name in ("symlink", "mkdir"):
+            return parent_ok(op[1])
+        if name == "rename":
+            return (op[1] in W or op[1] in dirs) and op[2] not in W and op[2] not in dirs and parent_ok(op[2]) \
+                and not op[2].startswith(op[1] + b"/")
+        if name == "stage":
+            return all((p in I or p in W) and p not in dirs for p in op[1])
+        if name == "add":
+            return all(p in I or p in W or p in dirs for p in op[1])
+        if name == "unstage":
+            return all(p in I or p in H for p in op[1])
+        if name == "rm_cached":
+            return all(p in I for p in op[1])
+        if name == "checkout":
+            return op[1] in (0, 1, 2) and op[1] != self.branch
+        return True
+
     def step(self, op):
         op = tuple(op)
+        if not self.in_domain(op):
+            self.labels.add("op-out-of-domain-skipped")
+            return
         self.ops.append(op)
         name = op[0]
         if name in ("write", "rewrite", "chmod", "delete", "symlink", "mkdir", "rename"):
@@ -1041,6 +1127,8 @@ def resolve(run: Runner, aop, universe, names):
         p = pick(free_paths(), s1)
         if p is not None:
             t = pick([TARGETS[s2 % len(TARGETS)], pick(files, s2) or b"a", pick(dirs, s2) or b"d"], s3)
+            if loops(p, t):
+                t = b"elsewhere"
             cop, hit = ("symlink", p, t), p
     elif name == "add_dir":
         p = pick(free_paths(), s1)
@@ -1061,6 +1149,8 @@ def resolve(run: Runner, aop, universe, names):
             if t is None:
                 others = [q for q in files + dirs if q != p]
                 t = pick([TARGETS[s2 % len(TARGETS)], pick(others, s2) or b"nowhere", pick(dirs, s2) or b"b"], s3)
+            if loops(p, t):
+                t = b"elsewhere"
             cop, hit = ("symlink", p, t), p
     elif name == "to_file":
         p = pick(links + dirs if s3 % 3 == 0 else links or dirs, s1)
@@ -1225,7 +1315,7 @@ def execute_case(ctx, case, only_bucket=None):
 _min_cache = {}
 
 
-def minimise(ctx, bucket, case, message, budget=60):
+def minimise(ctx, bucket, case, message, budget=40):
     """Greedy one-at-a-time removal of operations, tree entries and of differences between the trees."""
     if bucket in _min_cache:
         return _min_cache[bucket]
@@ -1295,7 +1385,7 @@ def _hermetic():
 
 def _part(ctx, item):
     n, maxops = item
-    run_hypothesis(ctx, _scenarios(maxops), run_scenario, max_examples=n, shrink=ctx.thorough)
+    run_hypothesis(ctx, _scenarios(maxops), run_scenario, max_examples=n, shrink=ctx.thorough, max_rounds=4 if ctx.thorough else 2)
 
 
 def run(ctx):
@@ -1305,6 +1395,6 @@ def run(ctx):
     ctx.note("git_version", cgit.version())
     st = os.stat(ctx.scratch.path)
     ctx.note("scratch_fs_has_subsecond_timestamps", bool(st.st_mtime_ns % 1_000_000_000))
-    per = ctx.scale(70, 4000)
+    per = ctx.scale(60, 4000)
     maxops = ctx.scale(12, 16)
     ctx.parallel(_part, [(per, maxops)] * 16)
